@@ -15,10 +15,11 @@ import (
 )
 
 type HistoryLog struct {
-	Index   int
-	Seed    int64
-	Profile string
-	Steps   []*Obs
+	Index    int
+	Seed     int64
+	Profile  string
+	Scenario string
+	Steps    []*Obs
 }
 
 type EngineStats struct {
@@ -162,7 +163,7 @@ func cmdEngine(args []string) error {
 					errs[i] = err
 					continue
 				}
-				logs[i] = &HistoryLog{Index: i, Seed: hs, Profile: *profile, Steps: h}
+				logs[i] = &HistoryLog{Index: i, Seed: hs, Profile: *profile, Scenario: g.Scenario, Steps: h}
 			}
 		}()
 	}
@@ -179,6 +180,9 @@ func cmdEngine(args []string) error {
 	st := &EngineStats{SkipReasons: map[string]int{}, OpKinds: map[string]int{}, RespKinds: map[string]int{}, Codes: map[string]int{}, Counters: map[string]int{}}
 	for _, l := range logs {
 		st.Histories++
+		if l.Scenario != "" {
+			st.Counters["scenario:"+l.Scenario]++
+		}
 		for _, o := range l.Steps {
 			st.Steps++
 			if o.Skip != "" {
